@@ -330,20 +330,24 @@ def nextOf (ps : List V3) : List V3 :=
   | [] => []
   | p :: l => l ++ [p]
 
-/-- sub-triangle (edge `p q`, temporary face centre `c`): area-weighted normal and centroid -/
+/-- the edges of the node loop of a face: (node, next node) -/
+def loopEdges (ps : List V3) : List (V3 × V3) := ps.zip (nextOf ps)
+
+/-- sub-triangle (edge `e = (p, q)`, temporary face centre `c`): area-weighted normal and centroid -/
 def subNormal (c : V3) (e : V3 × V3) : V3 := smul (1 / 2) (cross (sub e.2 e.1) (sub c e.1))
 def subCentroid3 (c : V3) (e : V3 × V3) : V3 := smul (1 / 3) (add (add e.1 e.2) c)
 
-def subNormals (ps : List V3) : List V3 := (ps.zip (nextOf ps)).map (subNormal (mean ps))
-def subCentroids (ps : List V3) : List V3 := (ps.zip (nextOf ps)).map (subCentroid3 (mean ps))
-def subAreas (sq : Rat → Rat) (ps : List V3) : List Rat := (subNormals ps).map (nrm sq)
-
+def subNormals (ps : List V3) : List V3 := (loopEdges ps).map (subNormal (mean ps))
+/-- face normal = sum of the sub-normals -/
 def faceNormal3 (ps : List V3) : V3 := vsum (subNormals ps)
-def faceArea3 (sq : Rat → Rat) (ps : List V3) : Rat := rsum (subAreas sq ps)
-def wpair (p : Rat × V3) : V3 := smul p.1 p.2
+
+/-- (sub-area, sub-centroid) of one sub-triangle -/
+def subW (sq : Rat → Rat) (c : V3) (e : V3 × V3) : Rat × V3 := (nrm sq (subNormal c e), subCentroid3 c e)
+def subTris (sq : Rat → Rat) (ps : List V3) : List (Rat × V3) := (loopEdges ps).map (subW sq (mean ps))
+/-- face area = sum of the sub-areas -/
+def faceArea3 (sq : Rat → Rat) (ps : List V3) : Rat := rsum ((subTris sq ps).map (·.1))
 /-- `face_centers = sub_areas * sub_centroids * edge_2_face / face_areas` -/
-def faceCentre3 (sq : Rat → Rat) (ps : List V3) : V3 :=
-  smul (1 / faceArea3 sq ps) (vsum (((subAreas sq ps).zip (subCentroids ps)).map wpair))
+def faceCentre3 (sq : Rat → Rat) (ps : List V3) : V3 := wavg (subTris sq ps)
 
 def sgnRat (q : Rat) : Rat := if q > 0 then 1 else if q < 0 then -1 else 0
 
@@ -355,11 +359,11 @@ structure Edge3 where
   outer : V3
 deriving DecidableEq, Repr
 
-def mkEdge (fc fnm : V3) (o : Int) (p : V3 × V3) : Edge3 :=
-  ⟨fc, p.2, smul ((o : Rat) * sgnRat (dot p.1 fnm)) p.1⟩
+def mkEdge (fc fnm c : V3) (o : Int) (e : V3 × V3) : Edge3 :=
+  ⟨fc, subCentroid3 c e, smul ((o : Rat) * sgnRat (dot (subNormal c e) fnm)) (subNormal c e)⟩
 
 def faceEdges (sq : Rat → Rat) (f : Int × List V3) : List Edge3 :=
-  ((subNormals f.2).zip (subCentroids f.2)).map (mkEdge (faceCentre3 sq f.2) (faceNormal3 f.2) f.1)
+  (loopEdges f.2).map (mkEdge (faceCentre3 sq f.2) (faceNormal3 f.2) (mean f.2) f.1)
 
 /-- a cell: its faces with their sign in `cell_faces` and node loop -/
 abbrev Cell3 := List (Int × List V3)
